@@ -3,9 +3,20 @@
   Equations on `evalMatchCases` / `evalCaseMatch` (for every program, state and fuel): cases are
   tried in source order, the first whose pattern list matches is the only one whose body runs,
   nothing of a later case is evaluated, literal patterns agree with `==`.
+
+  Part 2 (below the one-step equations): the WHOLE `match` against the specification
+  `Spec/Match.lean` — a reference matcher by structural recursion on the pattern (`patMatches`),
+  first matching alternative (`firstAlt`), first matching case (`firstMatch`), the body in a
+  frame of its own (`runCase`) — for the real evaluator at ANY fuel: `evalMatch_eq_spec`
+  (soundness, exact: value / error / signal AND final state), `evalMatch_eq_spec_complete`
+  (all sufficiently large fuels, explicit bound), and the clauses of the property as
+  corollaries about the specification.  "Out of fuel" is a separate outcome and never counts
+  as a result.
 -/
 import Jqawk.Props.C08
 import Jqawk.Props.C05
+import Jqawk.Lemmas.MatchSpecPure
+import Jqawk.Model.Driver
 
 namespace Jqawk.C19
 open Jqawk
@@ -122,4 +133,881 @@ theorem bindings_scoped (n pos : Nat) (v : CellId) (cases : List MatchCase) (s s
     FramesKeep s.frames s'.frames :=
   C08.frames_restored_match prog n pos v cases s s' h
 
+
+/-! # Part 2: the whole `match` against its specification -/
+
+/-! ### helpers for the concrete instances below (non-vacuity, `decide +kernel`) -/
+
+section helpers
+open Jqawk.Spec Jqawk.MatchSpec
+
+/-- the output of a whole program run by the model driver (no input); `none` unless it ends
+    normally -/
+def runOut (src : Bytes) : Option Bytes :=
+  let r := evalProgram expectedRuleTable src [] []
+  match r.outcome with
+  | .ok => some r.out
+  | _ => none
+
+/-- the runtime error (token offset, message) a whole program ends with, and what it had
+    printed before -/
+def runErr (src : Bytes) : Option (Nat × String × Bytes) :=
+  let r := evalProgram expectedRuleTable src [] []
+  match r.outcome with
+  | .runtimeErr _ pos msg => some (pos, msg, r.out)
+  | _ => none
+
+/-- the program a source text parses to and its initial state -/
+def demoProg (src : Bytes) : Program :=
+  match parseProgramSrc expectedRuleTable src with
+  | .ok p => p
+  | _ => Program.empty
+def demoStart (src : Bytes) : St := newEvaluator (demoProg src) Heap.empty [] 0
+
+/-- the parts of the `match` expression in `BEGIN { print match (v) { cases } … }` -/
+def demoMatch (src : Bytes) : Token × Expr × List MatchCase :=
+  match (demoProg src).rules with
+  | r :: _ =>
+    match r.body with
+    | .block _ (.print _ (.match_ t v cs :: _) :: _) => (t, v, cs)
+    | _ => (Token.zero, .lit Token.zero, [])
+  | [] => (Token.zero, .lit Token.zero, [])
+def demoCases (src : Bytes) : List MatchCase := (demoMatch src).2.2
+/-- the alternatives and the body of case `i` -/
+def demoAlts (src : Bytes) (i : Nat) : List Expr :=
+  match (demoCases src)[i]? with
+  | some (.mk pats _) => pats
+  | none => []
+def demoBody (src : Bytes) (i : Nat) : Stmt :=
+  match (demoCases src)[i]? with
+  | some (.mk _ body) => body
+  | none => .block Token.zero []
+
+/-- the state a result carries (default: out of fuel) -/
+def stateOf {α : Type} : Res α → St
+  | .ok _ s => s
+  | .err _ s => s
+  | .oof => default
+
+/-- the subject of that `match`, evaluated: its cell and the state after -/
+def demoSubject (src : Bytes) : CellId × St :=
+  match evalExpr (demoProg src) 50 (demoMatch src).2.1 (demoStart src) with
+  | .ok c s => (c, s)
+  | _ => (0, default)
+
+def isDone {α : Type} : Res α → Bool
+  | .oof => false
+  | _ => true
+def isNoMatch : Res (Option Bindings) → Bool
+  | .ok none _ => true
+  | _ => false
+def isNoSel : Res (Option (Stmt × Bindings)) → Bool
+  | .ok none _ => true
+  | _ => false
+/-- the names a successful pattern test bound, with the values of the bound cells -/
+def boundVals : Res (Option Bindings) → Option (List (Bytes × Val))
+  | .ok (some b) s => some (b.map fun kv => (kv.1, s.heap.get kv.2))
+  | _ => none
+/-- the value a successful evaluation yields -/
+def valueOf : Res CellId → Option Val
+  | .ok c s => some (s.heap.get c)
+  | _ => none
+def errOf {α : Type} : Res α → Option Err
+  | .err e _ => some e
+  | _ => none
+def outputOf {α : Type} (r : Res α) : Bytes := (stateOf r).output
+
+theorem ne_oof_of_isDone {α : Type} {r : Res α} (h : isDone r = true) : r ≠ .oof := by
+  intro h'; rw [h'] at h; cases h
+theorem eq_noMatch_of {r : Res (Option Bindings)} (h : isNoMatch r = true) :
+    r = .ok none (stateOf r) := by
+  cases r with
+  | ok a s => cases a <;> first | rfl | cases h
+  | err e s => cases h
+  | oof => cases h
+theorem eq_noSel_of {r : Res (Option (Stmt × Bindings))} (h : isNoSel r = true) :
+    r = .ok none (stateOf r) := by
+  cases r with
+  | ok a s => cases a <;> first | rfl | cases h
+  | err e s => cases h
+  | oof => cases h
+theorem eq_match_of {r : Res (Option Bindings)} (h : (boundVals r).isSome = true) :
+    ∃ b, r = .ok (some b) (stateOf r) := by
+  cases r with
+  | ok a s => cases a <;> first | exact ⟨_, rfl⟩ | cases h
+  | err e s => cases h
+  | oof => cases h
+theorem eq_ok_of {r : Res CellId} (h : (valueOf r).isSome = true) : ∃ c, r = .ok c (stateOf r) := by
+  cases r with
+  | ok a s => exact ⟨_, rfl⟩
+  | err e s => cases h
+  | oof => cases h
+theorem eq_err_of {α : Type} {r : Res α} {e : Err} (h : errOf r = some e) : r = .err e (stateOf r) := by
+  cases r with
+  | ok a s => cases h
+  | err e' s => simp only [errOf, Option.some.injEq] at h; subst h; rfl
+  | oof => cases h
+
+/-- the record's example; nested patterns; a failed array alternative that had bound `x` -/
+def srcRecord : Bytes := b!"BEGIN { print match ([2,5]) { [1,x], [2,x] => x } }"
+def srcFailed : Bytes := b!"BEGIN { print match ([7,2]) { [x,1], [y,2] => x }\nprint \"end\" }"
+def srcCases : Bytes :=
+  b!"BEGIN { print match (3) { 1, 2 => \"a\", 3, 4 => \"b\", f(1) => \"c\", x => 1/0 }\nprint \"end\" }"
+def srcBlock : Bytes := b!"BEGIN { print match (2) { 1 => \"one\", 2 => { print \"side\" }, 3 => \"three\" } }"
+def srcNone : Bytes := b!"BEGIN { print match (9) { 1 => \"one\", [a] => a } }"
+
+/-- the evaluator at fuel 40 on a demo program, as the primitive of the specification -/
+abbrev evE (src : Bytes) : Expr → EM CellId := evalExpr (demoProg src) 40
+abbrev evS (src : Bytes) : Stmt → EM Unit := evalStmt (demoProg src) 40
+/-- the subject's cell, the state after evaluating the subject -/
+abbrev subjCell (src : Bytes) : CellId := (demoSubject src).1
+abbrev subjState (src : Bytes) : St := (demoSubject src).2
+
+end helpers
+
+section whole
+open Jqawk.Spec Jqawk.MatchSpec
+
+/-- `e`, started in `s`, ends with `r` (a value / error / signal — never "out of fuel") -/
+def Yields (e : Expr) (s : St) (r : Res CellId) : Prop := ∃ n, evalExpr prog n e s = r ∧ r ≠ .oof
+
+/-! ## 0. the headline: the evaluator's `match` IS the specification -/
+
+/-- **Soundness, exact** (all clauses at once): whenever the evaluator does not run out of fuel
+    on `match (v) { cases }`, its result — value, runtime error or signal, AND final state — is
+    exactly that of `matchSpec`: the subject once; the cases in source order; in each case the
+    alternatives left to right; the first that matches selects the case; its body in a fresh
+    frame holding the bindings; `Spec/Match.lean`.  The evaluator at any fuel `m ≥ n` is the
+    primitive that evaluates the subject, the literals and the bodies.
+    (`a ⊑ b`, `EMLe a b`: from every state, `a` is out of fuel or ends exactly like `b`.) -/
+theorem evalMatch_eq_spec {n m : Nat} (h : n ≤ m) (t : Token) (v : Expr) (cases : List MatchCase) :
+    EMLe (evalExpr prog (n + 1) (.match_ t v cases))
+      (matchSpec (evalExpr prog m) (evalStmt prog m) t v cases) :=
+  evalMatch_sound prog h t v cases
+
+/-- … in equation form -/
+theorem evalMatch_eq_spec_sound {n m : Nat} (h : n ≤ m) (t : Token) (v : Expr)
+    (cases : List MatchCase) (s : St) (r : Res CellId)
+    (he : evalExpr prog (n + 1) (.match_ t v cases) s = r) (hr : r ≠ .oof) :
+    matchSpec (evalExpr prog m) (evalStmt prog m) t v cases s = r :=
+  evalMatch_sound_eq prog h t v cases s r he hr
+
+/-- **Completeness**: conversely a result of the specification (evaluator at fuel `m` as
+    primitive) that is not "out of fuel" is the evaluator's result at EVERY fuel
+    `N ≥ m + matchFuel cases + 1`, where `matchFuel cases` = number of cases + total size of
+    their patterns (`Lemmas/MatchSpec.lean`).  So evaluator and specification define the same
+    function wherever either is defined; fuel is irrelevant. -/
+theorem evalMatch_eq_spec_complete (m : Nat) (t : Token) (v : Expr) (cases : List MatchCase)
+    (s : St) (r : Res CellId)
+    (h : matchSpec (evalExpr prog m) (evalStmt prog m) t v cases s = r) (hr : r ≠ .oof)
+    {N : Nat} (hN : m + matchFuel cases + 1 ≤ N) :
+    evalExpr prog N (.match_ t v cases) s = r :=
+  evalMatch_complete prog m t v cases s r h hr hN
+
+/-- the two together, fuel-free -/
+theorem evalMatch_iff_spec (t : Token) (v : Expr) (cases : List MatchCase) (s : St)
+    (r : Res CellId) :
+    Yields prog (.match_ t v cases) s r ↔
+      ∃ m, matchSpec (evalExpr prog m) (evalStmt prog m) t v cases s = r ∧ r ≠ .oof := by
+  constructor
+  · rintro ⟨n, h, hr⟩
+    cases n with
+    | zero => rw [evalExpr_zero] at h; exact absurd h.symm hr
+    | succ n => exact ⟨n, evalMatch_sound_eq prog (Nat.le_refl n) t v cases s r h hr, hr⟩
+  · rintro ⟨m, h, hr⟩
+    exact ⟨_, evalMatch_complete prog m t v cases s r h hr (Nat.le_refl _), hr⟩
+
+/-- `evalMatch_eq_spec_sound`: the record's example `match ([2,5]) { [1,x], [2,x] => x }`: the
+    evaluator (fuel 41) does not run out of fuel and yields 5 (the defect mentioned in the
+    record — a failing array alternative made the remaining alternatives unreachable — is fixed
+    in the Go source the model follows) … -/
+example : valueOf (evalExpr (demoProg srcRecord) 41
+      (.match_ (demoMatch srcRecord).1 (demoMatch srcRecord).2.1 (demoCases srcRecord))
+      (demoStart srcRecord)) = some (.num (F64.ofNat 5)) := by decide +kernel
+/-- `evalMatch_eq_spec_complete`: … and so does the SPECIFICATION, run directly (primitives at
+    fuel 40); the bound `m + matchFuel cases + 1` is 64 here -/
+example : valueOf (matchSpec (evE srcRecord) (evS srcRecord)
+      (demoMatch srcRecord).1 (demoMatch srcRecord).2.1 (demoCases srcRecord)
+      (demoStart srcRecord)) = some (.num (F64.ofNat 5)) := by decide +kernel
+example : 40 + matchFuel (demoCases srcRecord) + 1 = 64 := by decide +kernel
+/-- `evalMatch_iff_spec`: hence the expression `Yields` a result -/
+example : ∃ r, Yields (demoProg srcRecord)
+    (.match_ (demoMatch srcRecord).1 (demoMatch srcRecord).2.1 (demoCases srcRecord))
+    (demoStart srcRecord) r :=
+  ⟨_, 41, rfl, ne_oof_of_isDone (by decide +kernel)⟩
+
+/-- more fuel never changes a result of a `match` that is not "out of fuel" -/
+theorem match_fuel_irrelevant {n m : Nat} (hnm : n ≤ m) (t : Token) (v : Expr)
+    (cases : List MatchCase) (s : St) (r : Res CellId)
+    (h : evalExpr prog n (.match_ t v cases) s = r) (hr : r ≠ .oof) :
+    evalExpr prog m (.match_ t v cases) s = r := by
+  rw [(evalExpr_le prog _ hnm).eq_of_ne_oof (by rw [h]; exact hr), h]
+
+/-- … nor does the fuel of the primitives change a result of the specification -/
+theorem matchSpec_fuel_irrelevant {m m' : Nat} (hm : m ≤ m') (t : Token) (v : Expr)
+    (cases : List MatchCase) (s : St) (r : Res CellId)
+    (h : matchSpec (evalExpr prog m) (evalStmt prog m) t v cases s = r) (hr : r ≠ .oof) :
+    matchSpec (evalExpr prog m') (evalStmt prog m') t v cases s = r := by
+  rw [(MatchSpec.matchSpec_fuel_irrelevant prog hm t v cases).eq_of_ne_oof (by rw [h]; exact hr), h]
+
+/-! ### the layers -/
+
+/-- the alternatives of one case: `evalCaseMatch` at fuel `k` is below `firstAlt` (literals
+    evaluated at any fuel `m ≥ k`) … -/
+theorem evalCaseMatch_eq_spec {k m : Nat} (hk : k ≤ m) (c : CellId) (pats : List Expr) :
+    EMLe (evalCaseMatch prog k c pats) (firstAlt (evalExpr prog m) c pats) :=
+  evalCaseMatch_le_spec prog hk c pats
+
+/-- … and `firstAlt` is below `evalCaseMatch` at every fuel `≥ altsFuel pats` (the total size
+    of the patterns) -/
+theorem evalCaseMatch_eq_spec_complete (m : Nat) {k : Nat} (c : CellId) (pats : List Expr)
+    (hk : altsFuel pats ≤ k) :
+    EMLe (firstAlt (evalExpr prog m) c pats) (evalCaseMatch prog k c pats) :=
+  spec_le_evalCaseMatch prog m c pats hk
+
+/-- an array pattern: `evalArrayCaseMatch` vs the array clause of `patMatches`, both ways -/
+theorem evalArrayCaseMatch_eq_spec {k m : Nat} (hk : k ≤ m) (c : CellId) (t : Token)
+    (items : List Expr) :
+    EMLe (evalArrayCaseMatch prog k c items) (patMatches (evalExpr prog m) (.arr t items) c) :=
+  evalArrayCaseMatch_le_spec prog hk c t items
+
+theorem evalArrayCaseMatch_eq_spec_complete (m : Nat) {k : Nat} (c : CellId) (t : Token)
+    (items : List Expr) (hk : elemsFuel items + 1 ≤ k) :
+    EMLe (patMatches (evalExpr prog m) (.arr t items) c) (evalArrayCaseMatch prog k c items) :=
+  spec_le_evalArrayCaseMatch prog m c t items hk
+
+/-- the element loop: `matchElems` vs `elemsMatch`, both ways -/
+theorem matchElems_eq_spec {k m : Nat} (hk : k ≤ m) (cs : List CellId) (ps : List Expr)
+    (acc : Bindings) :
+    EMLe (matchElems prog k cs ps acc) (elemsMatch (evalExpr prog m) ps cs acc) :=
+  matchElems_le_spec prog hk cs ps acc
+
+theorem matchElems_eq_spec_complete (m : Nat) {k : Nat} (cs : List CellId) (ps : List Expr)
+    (acc : Bindings) (hk : elemsFuel ps ≤ k) :
+    EMLe (elemsMatch (evalExpr prog m) ps cs acc) (matchElems prog k cs ps acc) :=
+  spec_le_matchElems prog m cs ps acc hk
+
+/-- the case loop: `evalMatchCases` vs `selectAndRun`, both ways -/
+theorem evalMatchCases_eq_spec {k m : Nat} (hk : k ≤ m) (pos : Nat) (c : CellId)
+    (cases : List MatchCase) :
+    EMLe (evalMatchCases prog k pos c cases)
+      (selectAndRun (evalExpr prog m) (evalStmt prog m) pos c cases) :=
+  evalMatchCases_le_spec prog pos c k cases hk
+
+theorem evalMatchCases_eq_spec_complete (m pos : Nat) (c : CellId) (cases : List MatchCase)
+    {k : Nat} (hk : m + matchFuel cases ≤ k) :
+    EMLe (selectAndRun (evalExpr prog m) (evalStmt prog m) pos c cases)
+      (evalMatchCases prog k pos c cases) :=
+  spec_le_evalMatchCases prog m pos c cases k hk
+
+/-! ## 1. the subject is evaluated once -/
+
+/-- the subject expression `v` is evaluated exactly once, first; everything after refers to
+    the resulting CELL only (`evalMatchCases` has no access to `v`) -/
+theorem subject_evaluated_once (n : Nat) (t : Token) (v : Expr) (cases : List MatchCase) :
+    evalExpr prog (n + 1) (.match_ t v cases) = (do
+      let c ← evalExpr prog n v
+      evalMatchCases prog n t.pos c cases) :=
+  evalExpr_match prog n t v cases
+
+/-- the same on the specification: `v` occurs once, `selectAndRun` does not mention it -/
+theorem subject_evaluated_once_spec (evE : Expr → EM CellId) (evS : Stmt → EM Unit) (t : Token)
+    (v : Expr) (cases : List MatchCase) :
+    matchSpec evE evS t v cases = (do
+      let c ← evE v
+      selectAndRun evE evS t.pos c cases) := rfl
+
+/-- an error or signal while evaluating the subject is the result; no case is looked at -/
+theorem subject_error (evE : Expr → EM CellId) (evS : Stmt → EM Unit) (t : Token)
+    (v : Expr) (cases : List MatchCase) (s s1 : St) (e : Err) (h : evE v s = .err e s1) :
+    matchSpec evE evS t v cases s = .err e s1 := by
+  simp only [matchSpec, bind, EM.bind, h]
+
+/-- `subject_error`: a failing subject (`1/0`): the error is the result -/
+example : ∃ e s1, evalExpr (demoProg b!"BEGIN { print match (1/0) { x => x } }") 40
+    (demoMatch b!"BEGIN { print match (1/0) { x => x } }").2.1
+    (demoStart b!"BEGIN { print match (1/0) { x => x } }") = .err e s1 :=
+  ⟨_, _, eq_err_of (e := .runtime 22 "divide by zero") (by decide +kernel)⟩
+example : runErr b!"BEGIN { print match (1/0) { x => x } }" = some (22, "divide by zero", []) := by
+  decide +kernel
+/-- the subject is evaluated once: its side effect happens once, whatever the number of cases
+    and alternatives tested against it -/
+example : runOut b!"BEGIN { i = 0\nprint match (i++) { 5, 6 => \"a\", [x] => \"b\", 0 => \"zero\" }\nprint i }"
+    = some b!"zero\n1\n" := by decide +kernel
+
+/-! ## 2. first match wins: alternatives left to right, cases in source order -/
+
+/-- the alternatives `pre ++ post` of one case: `post` is consulted only if no alternative of
+    `pre` matched (and none failed); otherwise the answer of `pre` stands -/
+theorem alternatives_in_order (ev : Expr → EM CellId) (c : CellId) (pre post : List Expr) (s : St) :
+    firstAlt ev c (pre ++ post) s =
+      (match firstAlt ev c pre s with
+       | .ok none s1 => firstAlt ev c post s1
+       | .ok (some b) s1 => .ok (some b) s1
+       | .err e s1 => .err e s1
+       | .oof => .oof) :=
+  firstAlt_append ev c pre post s
+
+/-- **the first matching alternative wins**: if no alternative before `p` matches (or fails)
+    and `p` matches with bindings `b`, the case matches with exactly the bindings `b` — whatever
+    the later alternatives `post` are (they do not occur on the right-hand side: they are not
+    evaluated, be they unsupported pattern forms or malformed literals) -/
+theorem first_alternative_wins (ev : Expr → EM CellId) (c : CellId) (pre : List Expr) (p : Expr)
+    (post : List Expr) (s s1 s2 : St) (b : Bindings)
+    (hpre : firstAlt ev c pre s = .ok none s1) (hp : patMatches ev p c s1 = .ok (some b) s2) :
+    firstAlt ev c (pre ++ p :: post) s = .ok (some b) s2 := by
+  rw [firstAlt_append, hpre]
+  simp only [firstAlt_cons, bind, EM.bind, hp]
+  rfl
+
+/-- `first_alternative_wins`, `alternatives_in_order`: the record's example: against `[2,5]` the
+    alternative `[1,x]` does not match, then `[2,x]` matches and binds `x` to the cell holding 5 -/
+example : ∃ s1 s2 b,
+    firstAlt (evE srcRecord) (subjCell srcRecord) ((demoAlts srcRecord 0).take 1) (subjState srcRecord)
+      = .ok none s1 ∧
+    patMatches (evE srcRecord) (demoAlts srcRecord 0)[1]! (subjCell srcRecord) s1 = .ok (some b) s2 := by
+  have h1 := eq_noMatch_of (r := firstAlt (evE srcRecord) (subjCell srcRecord)
+    ((demoAlts srcRecord 0).take 1) (subjState srcRecord)) (by decide +kernel)
+  obtain ⟨b, h2⟩ := eq_match_of (r := patMatches (evE srcRecord) (demoAlts srcRecord 0)[1]!
+    (subjCell srcRecord) (stateOf (firstAlt (evE srcRecord) (subjCell srcRecord)
+      ((demoAlts srcRecord 0).take 1) (subjState srcRecord)))) (by decide +kernel)
+  exact ⟨_, _, b, h1, h2⟩
+example : boundVals (firstAlt (evE srcRecord) (subjCell srcRecord) (demoAlts srcRecord 0)
+    (subjState srcRecord)) = some [(b!"x", .num (F64.ofNat 5))] := by decide +kernel
+/-- both orders of the alternatives, a catch-all identifier first / in the middle / last -/
+example : runOut b!"BEGIN { print match ([2,5]) { [2,x], [1,x] => x }\nprint match (7) { 1, 7, x => \"lit\" }\nprint match (7) { x, 7 => x }\nprint match (7) { 1, x, 7 => x + 1 } }"
+    = some b!"5\nlit\n7\n8\n" := by decide +kernel
+
+/-- the cases `pre ++ post`: `post` is consulted only if no case of `pre` was selected -/
+theorem cases_in_order (evE : Expr → EM CellId) (evS : Stmt → EM Unit) (pos : Nat) (c : CellId)
+    (pre post : List MatchCase) (s : St) :
+    selectAndRun evE evS pos c (pre ++ post) s =
+      (match firstMatch evE c pre s with
+       | .ok none s1 => selectAndRun evE evS pos c post s1
+       | .ok (some sel) s1 => runCase evE evS pos sel.1 sel.2 s1
+       | .err e s1 => .err e s1
+       | .oof => .oof) :=
+  selectAndRun_append evE evS pos c pre post s
+
+/-- **the first matching case wins**: if no case before `pats => body` is selected and one of
+    `pats` matches with bindings `b`, the result of the whole selection is `runCase` of THIS
+    body with THESE bindings.  The later cases `post` — patterns and bodies — do not occur on
+    the right-hand side: arbitrary later cases (matching ones, ones with unsupported patterns,
+    ones whose bodies would fail) contribute neither value nor effect nor error. -/
+theorem first_case_wins (evE : Expr → EM CellId) (evS : Stmt → EM Unit) (pos : Nat) (c : CellId)
+    (pre : List MatchCase) (pats : List Expr) (body : Stmt) (post : List MatchCase)
+    (s s1 s2 : St) (b : Bindings)
+    (hpre : firstMatch evE c pre s = .ok none s1) (hp : firstAlt evE c pats s1 = .ok (some b) s2) :
+    selectAndRun evE evS pos c (pre ++ .mk pats body :: post) s = runCase evE evS pos body b s2 := by
+  rw [selectAndRun_append, hpre]
+  simp only [selectAndRun_cons, bind, EM.bind, hp]
+
+/-- the same on the evaluator: with the subject evaluated to cell `c`, no earlier case
+    selected, and alternative `pats` of case `k` matching with `b`, the `match` expression ends
+    as `runCase` of that case does — at every sufficiently large fuel -/
+theorem first_case_wins_eval (m : Nat) (t : Token) (v : Expr) (pre : List MatchCase)
+    (pats : List Expr) (body : Stmt) (post : List MatchCase) (s0 s s1 s2 : St) (c : CellId)
+    (b : Bindings) (r : Res CellId)
+    (hv : evalExpr prog m v s0 = .ok c s)
+    (hpre : firstMatch (evalExpr prog m) c pre s = .ok none s1)
+    (hp : firstAlt (evalExpr prog m) c pats s1 = .ok (some b) s2)
+    (hb : runCase (evalExpr prog m) (evalStmt prog m) t.pos body b s2 = r) (hr : r ≠ .oof)
+    {N : Nat} (hN : m + matchFuel (pre ++ .mk pats body :: post) + 1 ≤ N) :
+    evalExpr prog N (.match_ t v (pre ++ .mk pats body :: post)) s0 = r := by
+  refine evalMatch_complete prog m t v _ s0 r ?_ hr hN
+  simp only [matchSpec, bind, EM.bind, hv]
+  rw [first_case_wins _ _ _ _ pre pats body post s s1 s2 b hpre hp, hb]
+
+/-- `first_case_wins`, `cases_in_order`, `first_case_wins_eval`: `match (3) { 1, 2 => "a",
+    3, 4 => "b", f(1) => "c", x => 1/0 }`: case 0 is not selected, alternative `3` of case 1
+    matches (no bindings): the result is `"b"` — although case 2 has an unsupported pattern and
+    the body of case 3 (a catch-all) would fail -/
+example : ∃ s1 s2 b,
+    firstMatch (evE srcCases) (subjCell srcCases) ((demoCases srcCases).take 1) (subjState srcCases)
+      = .ok none s1 ∧
+    firstAlt (evE srcCases) (subjCell srcCases) (demoAlts srcCases 1) s1 = .ok (some b) s2 := by
+  have h1 := eq_noSel_of (r := firstMatch (evE srcCases) (subjCell srcCases)
+    ((demoCases srcCases).take 1) (subjState srcCases)) (by decide +kernel)
+  obtain ⟨b, h2⟩ := eq_match_of (r := firstAlt (evE srcCases) (subjCell srcCases) (demoAlts srcCases 1)
+    (stateOf (firstMatch (evE srcCases) (subjCell srcCases) ((demoCases srcCases).take 1)
+      (subjState srcCases)))) (by decide +kernel)
+  exact ⟨_, _, b, h1, h2⟩
+example : runOut srcCases = some b!"b\nend\n" := by decide +kernel
+/-- … and with the two middle cases swapped the unsupported pattern `f(1)` is reached first:
+    runtime error at its token, nothing printed -/
+example : runErr b!"BEGIN { print match (3) { 1, 2 => \"a\", f(1) => \"c\", 3, 4 => \"b\" }\nprint \"end\" }"
+    = some (39, "not supported in match expressions", []) := by decide +kernel
+/-- the first of two matching cases wins; catch-all identifier first / middle / last case; the
+    body of the selected case only is run (the others would print) -/
+example : runOut b!"BEGIN { print match (2) { 2 => \"first\", 2 => \"second\", x => \"third\" }\nprint match (2) { x => \"any\", 2 => { print \"never\" } }\nprint match (2) { 1 => { print \"never\" }, x => x * 10, 2 => { print \"never\" } }\nprint match (2) { 1 => \"one\", 3 => \"three\", other => \"other\" } }"
+    = some b!"first\nany\n20\nother\n" := by decide +kernel
+
+/-! ## 3. the result value -/
+
+/-- an expression body: the value of the `match` is the body's value (the very cell), in the
+    frame that holds the bindings -/
+theorem expr_body_yields_value (evE : Expr → EM CellId) (evS : Stmt → EM Unit) (pos : Nat)
+    (be : Expr) (b : Bindings) (s : St) (hd : s.frames.length ≤ callDepthLimit) :
+    runCase evE evS pos (.expr be) b s =
+      withFrames s.frames (do bindAll b; evE be)
+        { s with frames := ⟨b!"<match>", []⟩ :: s.frames,
+                 maxDepth := max s.maxDepth (s.frames.length + 1) } :=
+  runCase_apply evE evS pos (.expr be) b s hd
+
+/-- **the bindings are visible in the body**: the body of the selected case starts in a state
+    whose innermost frame is `<match>` with EXACTLY the selected bindings as locals
+    (`mergeBindings [] b`: in order, a name bound twice keeps the later cell), on top of the
+    unchanged frame stack — so in the body a bound name denotes the bound cell of the subject
+    (next theorem), and every other name what it denoted outside -/
+theorem body_sees_bindings (evE : Expr → EM CellId) (evS : Stmt → EM Unit) (pos : Nat) (body : Stmt)
+    (b : Bindings) (s : St) (hd : s.frames.length ≤ callDepthLimit) :
+    runCase evE evS pos body b s =
+      withFrames s.frames
+        (match body with
+         | .expr be => evE be
+         | _ => do evS body; newCell (.nil none))
+        { s with frames := ⟨b!"<match>", mergeBindings [] b⟩ :: s.frames,
+                 maxDepth := max s.maxDepth (s.frames.length + 1) } :=
+  runCase_body_state evE evS pos body b s hd
+
+/-- name lookup in that state: a bound name finds its cell, any other name is looked up in the
+    frames outside -/
+theorem lookup_in_body (b : Bindings) (fs : List Frame) (name : Bytes) :
+    lookupFrames (⟨b!"<match>", mergeBindings [] b⟩ :: fs) name =
+      (match objLookup (mergeBindings [] b) name with
+       | some c => some c
+       | none => lookupFrames fs name) := rfl
+
+/-- `lookup_in_body` for the bindings `[x ↦ c]` of an identifier pattern -/
+example (x : Bytes) (c : CellId) (fs : List Frame) :
+    lookupFrames (⟨b!"<match>", mergeBindings [] [(x, c)]⟩ :: fs) x = some c := by
+  simp [lookupFrames, mergeBindings, objInsert, objLookup]
+
+/-- any other body (a block, `print`, `if`, …) is RUN as a statement … -/
+theorem block_body_runs_stmt (evE : Expr → EM CellId) (evS : Stmt → EM Unit) (pos : Nat)
+    (body : Stmt) (b : Bindings) (s : St) (hb : ∀ be, body ≠ .expr be)
+    (hd : s.frames.length ≤ callDepthLimit) :
+    runCase evE evS pos body b s =
+      withFrames s.frames (do bindAll b; evS body; newCell (.nil none))
+        { s with frames := ⟨b!"<match>", []⟩ :: s.frames,
+                 maxDepth := max s.maxDepth (s.frames.length + 1) } := by
+  rw [runCase_apply evE evS pos body b s hd]
+  cases body <;> first | rfl | exact absurd rfl (hb _)
+
+/-- … and the `match` **yields null for a block body**: when such a case completes, the value
+    is a fresh cell holding null -/
+theorem block_body_yields_null (evE : Expr → EM CellId) (evS : Stmt → EM Unit) (pos : Nat)
+    (body : Stmt) (b : Bindings) (s s' : St) (c : CellId) (hb : ∀ be, body ≠ .expr be)
+    (h : runCase evE evS pos body b s = .ok c s') : s'.heap.get c = .nil none := by
+  by_cases hd : s.frames.length > callDepthLimit
+  · rw [runCase_too_deep _ _ _ _ _ _ hd] at h; cases h
+  · rw [block_body_runs_stmt evE evS pos body b s hb (by omega)] at h
+    simp only [withFrames, bind, EM.bind] at h
+    split at h
+    · rename_i a s1 heq
+      split at heq
+      · rename_i u s2 _
+        split at heq
+        · rename_i u' s3 _
+          simp only [newCell, Heap.alloc, Res.ok.injEq] at heq
+          obtain ⟨rfl, rfl⟩ := heq
+          simp only [Res.ok.injEq] at h
+          obtain ⟨rfl, rfl⟩ := h
+          exact Heap.get_push_new _ _
+        · cases heq
+        · cases heq
+      · cases heq
+      · cases heq
+    · cases h
+    · cases h
+
+/-- `block_body_runs_stmt`, `block_body_yields_null`: `2 => { print "side" }` is selected: the
+    block runs (prints), the value of the `match` is null -/
+example : ∀ be, demoBody srcBlock 1 ≠ .expr be := by
+  intro be h
+  have : (match demoBody srcBlock 1 with | .expr _ => true | _ => false) = false := by decide +kernel
+  rw [h] at this; cases this
+example : (subjState srcBlock).frames.length ≤ callDepthLimit := by decide +kernel
+example : valueOf (runCase (evE srcBlock) (evS srcBlock) 0 (demoBody srcBlock 1) [] (subjState srcBlock))
+    = some (.nil none) := by decide +kernel
+example : outputOf (runCase (evE srcBlock) (evS srcBlock) 0 (demoBody srcBlock 1) [] (subjState srcBlock))
+    = b!"side\n" := by decide +kernel
+example : runOut srcBlock = some b!"side\nnull\n" := by decide +kernel
+
+/-- **no case matches: null** — if the selection runs through all cases without a match, the
+    value is a fresh cell holding null (and no body was run: the state is the one the pattern
+    tests left, plus that cell) -/
+theorem no_case_yields_null (evE : Expr → EM CellId) (evS : Stmt → EM Unit) (pos : Nat) (c : CellId)
+    (cases : List MatchCase) (s s1 : St) (h : firstMatch evE c cases s = .ok none s1) :
+    selectAndRun evE evS pos c cases s =
+      .ok s1.heap.cells.size { s1 with heap := { s1.heap with cells := s1.heap.cells.push (.nil none) } } ∧
+    ({ s1.heap with cells := s1.heap.cells.push (.nil none) } : Heap).get s1.heap.cells.size = .nil none := by
+  refine ⟨?_, Heap.get_push_new _ _⟩
+  rw [selectAndRun_apply, h]
+  rfl
+
+/-- `no_case_yields_null`: `match (9) { 1 => "one", [a] => a }`: no case is selected -/
+example : ∃ s1, firstMatch (evE srcNone) (subjCell srcNone) (demoCases srcNone) (subjState srcNone)
+    = .ok none s1 := ⟨_, eq_noSel_of (by decide +kernel)⟩
+example : runOut srcNone = some b!"null\n" := by decide +kernel
+
+end whole
+
+section clauses
+open Jqawk.Spec Jqawk.MatchSpec
+
+/-! ## 4. unsupported pattern forms: an error only when reached -/
+
+/-- a pattern that is neither a literal, nor an identifier, nor an array pattern (an object, a
+    call, an operator expression, a nested `match`) -/
+def Unsupported (p : Expr) : Prop :=
+  (∀ t, p ≠ .lit t) ∧ (∀ t, p ≠ .ident t) ∧ (∀ t items, p ≠ .arr t items)
+
+/-- reaching such a pattern is the runtime error "not supported in match expressions" at the
+    pattern's token; nothing else happens -/
+theorem bad_pattern_error (ev : Expr → EM CellId) (p : Expr) (c : CellId) (hp : Unsupported p) :
+    patMatches ev p c = throwRt p.token.pos "not supported in match expressions" :=
+  patMatches_unsupported ev p c hp.1 hp.2.1 hp.2.2
+
+/-- `Unsupported`: objects, calls, operator expressions and nested `match`es are such patterns
+    (`f(1)` in `srcCases` is one) -/
+example (t : Token) (items : List (Bytes × Expr)) : Unsupported (.obj t items) := by
+  simp [Unsupported]
+example (f : Expr) (args : List Expr) : Unsupported (.call f args) := by simp [Unsupported]
+example : (match (demoAlts srcCases 2)[0]! with | .call _ _ => true | _ => false) = true := by
+  decide +kernel
+
+/-- **the error is raised iff the pattern is reached**: with an unsupported pattern `p` after the
+    alternatives `pre`, the case raises the error at `p` exactly when every alternative of `pre`
+    failed to match without fault (first line); if one of them matches, the case matches and
+    there is NO error (second line); an error of an earlier alternative stands (third line).
+    The alternatives `post` after `p` never matter. -/
+theorem bad_pattern_error_only_when_reached (ev : Expr → EM CellId) (c : CellId)
+    (pre : List Expr) (p : Expr) (post : List Expr) (s : St) (hp : Unsupported p) :
+    firstAlt ev c (pre ++ p :: post) s =
+      (match firstAlt ev c pre s with
+       | .ok none s1 => throwRt p.token.pos "not supported in match expressions" s1
+       | .ok (some b) s1 => .ok (some b) s1
+       | .err e s1 => .err e s1
+       | .oof => .oof) := by
+  rw [firstAlt_append]
+  cases firstAlt ev c pre s with
+  | ok a s1 =>
+    cases a with
+    | none =>
+      simp only [firstAlt_cons, bind, EM.bind, bad_pattern_error ev p c hp]
+      rfl
+    | some b => rfl
+  | err e s1 => rfl
+  | oof => rfl
+
+/-- the same one level up: a case whose first alternative is unsupported, after the cases
+    `pre`: the error iff no case of `pre` was selected; if one was, its body runs and the bad
+    pattern is never looked at -/
+theorem bad_pattern_case_only_when_reached (evE : Expr → EM CellId) (evS : Stmt → EM Unit)
+    (pos : Nat) (c : CellId) (pre : List MatchCase) (p : Expr) (ps : List Expr) (body : Stmt)
+    (post : List MatchCase) (s : St) (hp : Unsupported p) :
+    selectAndRun evE evS pos c (pre ++ .mk (p :: ps) body :: post) s =
+      (match firstMatch evE c pre s with
+       | .ok none s1 => throwRt p.token.pos "not supported in match expressions" s1
+       | .ok (some sel) s1 => runCase evE evS pos sel.1 sel.2 s1
+       | .err e s1 => .err e s1
+       | .oof => .oof) := by
+  rw [selectAndRun_append]
+  cases firstMatch evE c pre s with
+  | ok a s1 =>
+    cases a with
+    | none =>
+      simp only [selectAndRun_cons, firstAlt_cons, bind, EM.bind, bad_pattern_error evE p c hp]
+      rfl
+    | some sel => rfl
+  | err e s1 => rfl
+  | oof => rfl
+
+/-- an object pattern AFTER a matching alternative / case is never looked at; BEFORE it, it is
+    the error (at the token of the pattern); likewise an operator expression `-3` -/
+example : runOut b!"BEGIN { print match (3) { 3, {a: 1} => \"first\", {b: 2} => \"second\" } }"
+    = some b!"first\n" := by decide +kernel
+example : runErr b!"BEGIN { print match (3) { {a: 1}, 3 => \"first\" } }"
+    = some (26, "not supported in match expressions", []) := by decide +kernel
+example : runErr b!"BEGIN { print match (3) { 1 => \"no\", 2, -3 => \"bad\", 3 => \"late\" } }"
+    = some (40, "not supported in match expressions", []) := by decide +kernel
+
+/-! ## 5. bindings: only those of the alternative that matched, only in the body -/
+
+/-- literal evaluation by the evaluator only allocates (at every fuel) -/
+theorem literals_only_allocate (m : Nat) (t : Token) : GrowsOnly (evalExpr prog m (.lit t)) :=
+  evalExpr_lit_grows prog m t
+
+/-- **testing a pattern binds nothing**: however `patMatches` ends — match, no match, error —
+    the state differs from the one before only by freshly allocated cells (the literals'
+    values): the frame stack (all locals), the output, `$`, the return slot, every existing
+    cell, array and object are as before (`Grows`).  Bindings are DATA returned by a successful
+    match; only `runCase` makes the selected ones visible. -/
+theorem pattern_test_binds_nothing (m : Nat) (p : Expr) (c : CellId) (s s' : St)
+    (h : endState (patMatches (evalExpr prog m) p c s) = some s') : Grows s s' :=
+  patMatches_grows (evalExpr_lit_grows prog m) p c s s' h
+
+/-- … and so do all alternatives of a case and the whole selection `firstMatch` -/
+theorem selection_binds_nothing (m : Nat) (c : CellId) (cases : List MatchCase) (s s' : St)
+    (h : endState (firstMatch (evalExpr prog m) c cases s) = some s') : Grows s s' :=
+  firstMatch_grows (evalExpr_lit_grows prog m) c cases s s' h
+
+/-- **the bindings of a failed alternative are invisible**: an alternative `p` that does not
+    match — even an array pattern that bound some names before an element failed — contributes
+    nothing: the case goes on with the remaining alternatives from a state `s1` that differs
+    from `s` only by fresh cells, and the bindings finally selected are exactly those the
+    remaining alternatives produce (what `p` bound on the way occurs nowhere) -/
+theorem failed_alternative_bindings_invisible (m : Nat) (c : CellId) (p : Expr) (rest : List Expr)
+    (s s1 : St) (hp : patMatches (evalExpr prog m) p c s = .ok none s1) :
+    firstAlt (evalExpr prog m) c (p :: rest) s = firstAlt (evalExpr prog m) c rest s1 ∧
+      Grows s s1 := by
+  refine ⟨?_, pattern_test_binds_nothing prog m p c s s1 (by rw [hp]; rfl)⟩
+  simp only [firstAlt_cons, bind, EM.bind, hp]
+
+/-- on the state-free matcher: an alternative that does not match is simply skipped -/
+theorem failed_alternative_skipped_pure (h : Heap) (lit : Token → Except Err Val) (c : CellId)
+    (p : Expr) (rest : List Expr) (hp : patMatchesPure h lit p c = .noMatch) :
+    firstAltPure h lit c (p :: rest) = firstAltPure h lit c rest := by
+  simp only [firstAltPure, hp]
+
+/-- an element that fails inside an array pattern discards what earlier elements bound -/
+theorem failed_element_discards_bindings (h : Heap) (lit : Token → Except Err Val) (p : Expr)
+    (ps : List Expr) (c : CellId) (cs : List CellId) (acc : Bindings)
+    (hp : patMatchesPure h lit p c = .noMatch) :
+    elemsMatchPure h lit (p :: ps) (c :: cs) acc = .noMatch := by
+  simp only [elemsMatchPure, hp]
+
+/-- `pattern_test_binds_nothing`, `failed_alternative_bindings_invisible`: `[x, 1]` against
+    `[7, 2]` binds `x` to the first element, then fails on the second: no match … -/
+example : ∃ s1, patMatches (evE srcFailed) (demoAlts srcFailed 0)[0]! (subjCell srcFailed)
+    (subjState srcFailed) = .ok none s1 := ⟨_, eq_noMatch_of (by decide +kernel)⟩
+/-- … the case then matches through `[y, 2]` and the selected bindings are exactly `y ↦ 7`
+    (no `x`) … -/
+example : boundVals (firstAlt (evE srcFailed) (subjCell srcFailed) (demoAlts srcFailed 0)
+    (subjState srcFailed)) = some [(b!"y", .num (F64.ofNat 7))] := by decide +kernel
+/-- … and in the body `x` is an unset variable (Go prints `<unknown>` too) -/
+example : runOut srcFailed = some b!"<unknown>\nend\n" := by decide +kernel
+/-- on the state-free matcher: `failed_alternative_skipped_pure`, `failed_element_discards_bindings` -/
+example : patMatchesPure (subjState srcFailed).heap litValue (demoAlts srcFailed 0)[0]!
+    (subjCell srcFailed) = .noMatch := by decide +kernel
+example : firstAltPure (subjState srcFailed).heap litValue (subjCell srcFailed) (demoAlts srcFailed 0)
+    = .binds [(b!"y", 4)] := by decide +kernel
+
+/-- **the bindings are dropped after the match** (frame theorem, specification): however the
+    selection and the selected body end, the frame stack afterwards is EXACTLY the one before
+    `selectAndRun` — the frame `<match>` with the bindings is gone, no other frame changed -/
+theorem bindings_dropped_after (m : Nat) (evS : Stmt → EM Unit) (pos : Nat) (c : CellId)
+    (cases : List MatchCase) (s s' : St)
+    (h : endState (selectAndRun (evalExpr prog m) evS pos c cases s) = some s') :
+    s'.frames = s.frames := by
+  rw [selectAndRun_apply] at h
+  cases hf : firstMatch (evalExpr prog m) c cases s with
+  | ok a s1 =>
+    have hg : Grows s s1 := selection_binds_nothing prog m c cases s s1 (by rw [hf]; rfl)
+    rw [hf] at h
+    cases a with
+    | none =>
+      simp only [newCell, Heap.alloc, endState, Option.some.injEq] at h
+      subst h
+      exact hg.frames
+    | some sel => exact (runCase_frames _ _ _ _ _ _ _ h).trans hg.frames
+  | err e s1 =>
+    have hg : Grows s s1 := selection_binds_nothing prog m c cases s s1 (by rw [hf]; rfl)
+    rw [hf] at h
+    simp only [endState, Option.some.injEq] at h
+    subst h
+    exact hg.frames
+  | oof => rw [hf] at h; simp [endState] at h
+
+/-- … and on the evaluator, for the whole expression including the subject (which may create
+    locals in the CURRENT frame): same depth, deeper frames identical (C08) -/
+theorem bindings_dropped_after_eval (n : Nat) (t : Token) (v : Expr) (cases : List MatchCase)
+    (s s' : St) (h : C08.finalState (evalExpr prog n (.match_ t v cases) s) = some s') :
+    FramesKeep s.frames s'.frames :=
+  C08.frames_restored_expr prog n _ s s' h
+
+/-- `bindings_dropped_after`: the selection and the body of `srcFailed` end (in a value) -/
+example : isDone (selectAndRun (evE srcFailed) (evS srcFailed) 0 (subjCell srcFailed)
+    (demoCases srcFailed) (subjState srcFailed)) = true := by decide +kernel
+/-- after a completed `match` the bound name is gone (a global of the same name shows again,
+    untouched) -/
+example : runOut b!"BEGIN { y = \"global\"\nprint match ([7,2]) { [y,2] => y }\nprint y }"
+    = some b!"7\nglobal\n" := by decide +kernel
+
+/-! ## 6. literal patterns are `==` -/
+
+/-- **a literal pattern matches exactly when `subject == literal`**: the primitive test
+    `litMatches` of the specification is the operator `==` on the two values — `true`/`false`
+    as `==` answers (an unset subject equals nothing), an error exactly when `==` raises one
+    (comparing with a container), with the same message -/
+theorem literal_pattern_is_equality (v l : Val) (hl : l.kind ≠ .unknown) :
+    binaryOp .equalEqual v l =
+      (match litMatches v l with
+       | .ok b => .val (.bool b)
+       | .error m => .err false m) :=
+  equalEqual_eq_litMatches v l hl
+
+/-- no literal evaluates to an unset value (so the hypothesis above always holds) -/
+theorem literal_never_unset (t : Token) (v : Val) (h : litValue t = .ok v) : v.kind ≠ .unknown :=
+  litValue_kind t v h
+
+/-- the literal clause of the evaluator is `litValue` -/
+theorem literal_value (k : Nat) (t : Token) :
+    evalExpr prog (k + 1) (.lit t) = litAction (litValue t) :=
+  evalExpr_lit_eq prog k t
+
+/-- the literal pattern on the state-free matcher, in terms of `==` -/
+theorem literal_pattern_pure (h : Heap) (t : Token) (c : CellId) :
+    patMatchesPure h litValue (.lit t) c =
+      (match litValue t with
+       | .error e => .fault e
+       | .ok lv =>
+         match binaryOp .equalEqual (h.get c) lv with
+         | .val (.bool true) => .binds []
+         | .val _ => .noMatch
+         | .err _ m => .fault (.runtime t.pos m)
+         | .unmodelled w => .fault (.unmodelled w)) := by
+  simp only [patMatchesPure]
+  cases hv : litValue t with
+  | error e => rfl
+  | ok lv =>
+    dsimp only
+    rw [equalEqual_eq_litMatches _ _ (litValue_kind t lv hv)]
+    cases litMatches (h.get c) lv with
+    | error m => rfl
+    | ok b => cases b <;> rfl
+
+/-- `literal_pattern_is_equality` / `literal_never_unset`: the literal `2` is the number 2 -/
+example : (match litValue (match (demoAlts srcBlock 1)[0]! with | .lit t => t | _ => Token.zero) with
+    | .ok v => some v | .error _ => none) = some (.num (F64.ofNat 2)) := by decide +kernel
+/-- literal patterns of every kind; an unset subject equals no literal; comparing a container
+    with a literal is the error `==` raises (Go's message names the two kinds as well) -/
+example : runOut b!"BEGIN { print match (\"s\") { 1 => \"num\", true => \"bool\", null => \"null\", \"s\" => \"str\" }\nprint match (u) { 1 => \"one\", null => \"null\", x => \"unset\" } }"
+    = some b!"str\nunset\n" := by decide +kernel
+example : runErr b!"BEGIN { print match ({}) { x => 1 } == 1, match ({}) { 1 => 1 } }"
+    = some (55, "cannot compare", []) := by decide +kernel
+
+/-! ## 7. identifier and array patterns -/
+
+/-- an identifier matches anything and binds the name to the subject's own cell -/
+theorem ident_pattern_binds (ev : Expr → EM CellId) (t : Token) (c : CellId) :
+    patMatches ev (.ident t) c = pure (some [(t.text, c)]) :=
+  patMatches_ident ev t c
+
+/-- **array patterns**: the subject must be an array of EXACTLY the pattern's length; then the
+    elements are matched against the sub-patterns position by position (`elemsMatch`) -/
+theorem array_pattern_elementwise (ev : Expr → EM CellId) (t : Token) (items : List Expr)
+    (c : CellId) (s : St) :
+    patMatches ev (.arr t items) c s =
+      (match s.heap.get c with
+       | .arr a =>
+         if (s.heap.arr a).toList.length = items.length then
+           elemsMatch ev items (s.heap.arr a).toList [] s
+         else .ok none s
+       | _ => .ok none s) := by
+  rw [patMatches_arr]
+  simp only [bind, EM.bind, readCell]
+  cases s.heap.get c <;> try rfl
+  rename_i a
+  simp only [EM.bind, getHeap]
+  by_cases hl : (s.heap.arr a).toList.length = items.length
+  · simp only [hl, bne_self_eq_false, Bool.false_eq_true, ↓reduceIte]
+  · have hne : ((s.heap.arr a).toList.length != items.length) = true := by simpa using hl
+    simp only [hl, hne, ↓reduceIte]
+    rfl
+
+/-- position by position, left to right, recursively (the sub-pattern is any pattern), the
+    bindings merged, later ones winning; the first element that does not match ends it -/
+theorem array_elements_in_order (ev : Expr → EM CellId) (p : Expr) (ps : List Expr) (c : CellId)
+    (cs : List CellId) (acc : Bindings) :
+    elemsMatch ev (p :: ps) (c :: cs) acc = (do
+      match (← patMatches ev p c) with
+      | none => pure none
+      | some nb => elemsMatch ev ps cs (mergeBindings acc nb)) :=
+  elemsMatch_cons ev p ps c cs acc
+
+/-- the state-free reading: an array pattern matches iff the subject is an array of the same
+    length … -/
+theorem array_pattern_pure (h : Heap) (lit : Token → Except Err Val) (t : Token)
+    (items : List Expr) (c : CellId) :
+    patMatchesPure h lit (.arr t items) c =
+      (match h.get c with
+       | .arr a =>
+         if (h.arr a).toList.length = items.length then
+           elemsMatchPure h lit items (h.arr a).toList []
+         else .noMatch
+       | _ => .noMatch) := by
+  simp only [patMatchesPure]
+  cases h.get c <;> try rfl
+  rename_i a
+  dsimp only
+  by_cases hl : (h.arr a).toList.length = items.length <;> simp [hl]
+
+/-- … and **every element matches its sub-pattern**, position by position (the pairs of
+    `ps.zip cs`) — provided no sub-pattern faults before a mismatch is found -/
+theorem array_elements_all_match (h : Heap) (lit : Token → Except Err Val) :
+    ∀ (ps : List Expr) (cs : List CellId) (acc : Bindings), ps.length = cs.length →
+      ((∃ b, elemsMatchPure h lit ps cs acc = .binds b) ↔
+        ∀ pc ∈ ps.zip cs, ∃ nb, patMatchesPure h lit pc.1 pc.2 = .binds nb)
+  | [], [], acc, _ => by
+    constructor
+    · intro _ pc hpc; simp at hpc
+    · intro _; exact ⟨acc, by simp [elemsMatchPure]⟩
+  | p :: ps, c :: cs, acc, hl => by
+    have hl' : ps.length = cs.length := by simpa using hl
+    simp only [elemsMatchPure, List.zip_cons_cons, List.mem_cons, forall_eq_or_imp]
+    constructor
+    · rintro ⟨b, hb⟩
+      cases hp : patMatchesPure h lit p c with
+      | binds nb =>
+        rw [hp] at hb
+        exact ⟨⟨nb, rfl⟩, (array_elements_all_match h lit ps cs _ hl').mp ⟨b, hb⟩⟩
+      | noMatch => rw [hp] at hb; cases hb
+      | fault e => rw [hp] at hb; cases hb
+    · rintro ⟨⟨nb, hnb⟩, h2⟩
+      rw [hnb]
+      exact (array_elements_all_match h lit ps cs _ hl').mpr h2
+  | [], _ :: _, _, hl => by simp at hl
+  | _ :: _, [], _, hl => by simp at hl
+
+/-- `array_pattern_elementwise`, `array_elements_all_match`: nested array patterns; exactly the
+    same length; a scalar or an empty array against array patterns -/
+example : runOut b!"BEGIN { print match ([1,[2,3]]) { [a,[b,4]], [a,[2,c]] => a + c, z => \"no\" }\nprint match ([1,2,3]) { [a,b] => \"two\", [a,b,c,d] => \"four\", [a,b,c] => a + b + c }\nprint match (5) { [] => \"empty\", [x] => \"one\", _ => \"scalar\" }\nprint match ([]) { [x] => \"one\", [] => \"empty\" } }"
+    = some b!"4\n6\nscalar\nempty\n" := by decide +kernel
+/-- a name bound twice keeps the later element (`mergeBindings`: later wins) -/
+example : runOut b!"BEGIN { print match ([1,2]) { [x,x] => x } }" = some b!"2\n" := by decide +kernel
+/-- the name is bound to the element's OWN cell: assigning to it in the body writes the array -/
+example : runOut b!"BEGIN { a = [1,2]\nmatch (a) { [x,y] => { x = 9 } }\nprint a }"
+    = some b!"[9, 2]\n" := by decide +kernel
+
+/-! ## 8. the matcher is a function of the heap -/
+
+/-- **the answer of `patMatches` is `patMatchesPure` of the heap it starts from**: from a state
+    whose heap is well formed (arrays hold allocated cells) and contains the subject cell, the
+    evaluator-backed matcher answers exactly what the state-free matcher computes — bindings,
+    no match, or the error —, and ends in a state that differs only by freshly allocated cells -/
+theorem patMatches_is_pure (k : Nat) (p : Expr) (c : CellId) (s : St) (wf : s.heap.WF)
+    (hc : c < s.heap.cells.size) :
+    ∃ s', patMatches (evalExpr prog (k + 1)) p c s = answerRes (patMatchesPure s.heap litValue p c) s' ∧
+      Grows s s' :=
+  patMatches_eq_pure (fun t => evalExpr_lit_eq prog k t) p c s wf hc
+
+/-- the same for the alternatives of a case -/
+theorem firstAlt_is_pure (k : Nat) (pats : List Expr) (c : CellId) (s : St) (wf : s.heap.WF)
+    (hc : c < s.heap.cells.size) :
+    ∃ s', firstAlt (evalExpr prog (k + 1)) c pats s = answerRes (firstAltPure s.heap litValue c pats) s' ∧
+      Grows s s' :=
+  firstAlt_eq_pure (fun t => evalExpr_lit_eq prog k t) c s.heap wf hc pats s (HeapExt.refl _)
+
+/-- `patMatches_is_pure`: the heap after evaluating the subject `[2,5]` is well formed and
+    contains the subject cell; the state-free matcher answers `x ↦ cell 6` for `[2,x]` -/
+example : (subjState srcRecord).heap.WF := wf_of_wfCheck _ (by decide +kernel)
+example : subjCell srcRecord < (subjState srcRecord).heap.cells.size := by decide +kernel
+example : patMatchesPure (subjState srcRecord).heap litValue (demoAlts srcRecord 0)[1]!
+    (subjCell srcRecord) = .binds [(b!"x", 6)] := by decide +kernel
+example : firstAltPure (subjState srcRecord).heap litValue (subjCell srcRecord) (demoAlts srcRecord 0)
+    = .binds [(b!"x", 6)] := by decide +kernel
+
+end clauses
 end Jqawk.C19
